@@ -57,6 +57,7 @@ def scenarios(tier):
         Scenario("j1-race-nowait", 1, [("A", [SUB(0), RES(0)]), ("B", [SD(False)])]),
         Scenario("j1-race-wait", 1, [("A", [SUB(0), RES(0)]), ("B", [SD(True)])]),
         Scenario("j1-late-submit", 1, [("A", [SD(False)]), ("B", [SUB(0), RES(0)])]),
+        Scenario("j2-main-wait", 2, [("M", [SUB(0), SUB(1), SD(True)])]),
         Scenario("j2-earlyexit", 2, [("A", [SUB(0), RES(0), SD(False)]), ("B", [SUB(1), RES(1)])]),
         Scenario("j2-cb-nowait", 2, [("M", [SUB(0), SUB(1), SD(True)])], {0: [SD(False)], 1: [SD(False)]}),
         Scenario("j2-seq-late", 2, [("M", [SUB(0), SD(False), SUB(1)])]),
@@ -73,7 +74,7 @@ def scenarios(tier):
         Scenario("j2-race-wait-nowait", 2, [("A", [SUB(0), RES(0)]), ("B", [SUB(1), SD(True)]), ("C", [SD(False)])]),
     ]
     depth = {"quick": {1: 24, 2: 20, 3: 18}, "thorough": {1: 36, 2: 30, 3: 26}}[tier]
-    override = {("thorough", "j3-main-nowait"): 40, ("quick", "j2-earlyexit"): 22}
+    override = {("thorough", "j3-main-nowait"): 40, ("quick", "j2-earlyexit"): 22, ("quick", "j2-main-wait"): 30}
     scs = both if tier == "quick" else both + more
     return [(s, override.get((tier, s.name), depth[s.J])) for s in scs]
 
